@@ -421,6 +421,13 @@ fn reply_line_strategy() -> impl Strategy<Value = Line> {
         1 => Just(Line::Raw(b":0100030407F0".to_vec())),
         1 => Just(Line::Raw(b":0200030407F1".to_vec())),
         2 => proptest::collection::vec(any::<u8>(), 0..16).prop_map(Line::Raw),
+        // a well-formed reply with one character replaced (a digit, a letter of the other case, a sign, a space ...)
+        3 => (prop_oneof![(a(), 0u8..13).prop_map(|(a, s)| M::Report(a, s)), (a(), 0u8..6).prop_map(|(a, o)| M::Ack(a, o))], any::<u16>(), proptest::sample::select(b"0123456789ABCDEFabcdef:G\r +-_xX".to_vec())).prop_map(|(m, sel, ch)| {
+            let mut w = wire_of(&m);
+            let i = crate::engine::pick_idx(sel, w.len());
+            w[i] = ch;
+            Line::Raw(w)
+        }),
     ]
 }
 
